@@ -472,6 +472,170 @@ theorem iteration_lazy_eq_expanded (load : Oid → Option Listing) (hlo : Listin
   unfold expand
   rw [iterItems_exact load hlo _ hw2 (foldl_loadAt_WF load _ idx hwf) pfx k v, hd1 k, hd2 k]
 
+/-! ### listing the children of a key -/
+
+theorem stripPrefix_some (k : Key) : ∀ (x r : Key), stripPrefix k x = some r → x = k ++ r := by
+  induction k with
+  | nil => intro x r h; simp [stripPrefix] at h; simp [h]
+  | cons a t ih =>
+    intro x r h
+    cases x with
+    | nil => simp [stripPrefix] at h
+    | cons b u =>
+      simp only [stripPrefix] at h
+      split at h
+      · rename_i hab; subst hab; simp [ih u r h]
+      · cases h
+
+theorem stripPrefix_append' (p rest : Key) : stripPrefix p (p ++ rest) = some rest := by
+  induction p with
+  | nil => rfl
+  | cons a r ih => simp [stripPrefix, ih]
+
+theorem mem_foldl_insertSet' (l : List Key) : ∀ (acc : List Key) (x : Key),
+    x ∈ l.foldl insertSet acc ↔ x ∈ acc ∨ x ∈ l := by
+  induction l with
+  | nil => intro acc x; simp
+  | cons a r ih =>
+    intro acc x
+    simp only [List.foldl_cons, ih, mem_insertSet, List.mem_cons]
+    constructor
+    · rintro ((h | h) | h)
+      · exact Or.inl h
+      · exact Or.inr (Or.inl h)
+      · exact Or.inr (Or.inr h)
+    · rintro (h | h | h)
+      · exact Or.inl (Or.inl h)
+      · exact Or.inl (Or.inr h)
+      · exact Or.inr h
+
+/-- after a lookup of `k`, no unloaded available directory object remains strictly above `k` -/
+theorem getItem_no_UL_above (load : Oid → Option Listing) (idx : LIndex) (hw : W1 idx) (k d : Key)
+    (hul : UL load (getItem load idx k).1 d) (hdk : d <+: k) : d = k := by
+  unfold getItem at hul
+  cases hk : idx.lookup k with
+  | some e =>
+    rw [hk] at hul
+    simp only at hul
+    obtain ⟨ed, hd, hc, _⟩ := hul
+    exact (hw d ed hd hc k (by simp [hk]) hdk).symm
+  | none =>
+    rw [hk] at hul
+    simp only at hul
+    have hs := longestPrefix_spec idx k
+    cases hlp : longestPrefix idx k with
+    | none =>
+      rw [hlp] at hs hul
+      simp only at hs hul
+      obtain ⟨ed, hd, _⟩ := hul
+      exact absurd hdk (hs d (by simp [hd]))
+    | some d0 =>
+      rw [hlp] at hs hul
+      simp only at hs hul
+      obtain ⟨hul0, hne⟩ := loadAt_UL load idx d0 d hul
+      obtain ⟨ed, hd, hc, _⟩ := hul0
+      exact absurd (isLP_unique idx k d d0 (isLP_unloaded idx hw d k ed hd hc hdk) hs) hne
+
+/-- the index `ls(k)` leaves behind keeps the meaning -/
+theorem lsAt_preserves (load : Oid → Option Listing) (hlo : ListingsOK load) (idx : LIndex) (hw : W1 idx) (k : Key) :
+    W1 (loadAt load (getItem load idx k).1 k) ∧
+    ∀ q, denote load (loadAt load (getItem load idx k).1 k) q = denote load idx q := by
+  obtain ⟨h1, h2⟩ := getItem_preserves load hlo idx hw k
+  exact ⟨loadAt_W1 load hlo _ h1 k, fun q => (loadAt_denote load hlo _ h1 k q).trans (h2 q)⟩
+
+/-- wherever the index means something at or below `k`, the index `ls(k)` works on has an explicit key
+    between `k` and that key — strictly below `k` if the key is -/
+theorem lsAt_explicit_between (load : Oid → Option Listing) (hlo : ListingsOK load) (idx : LIndex) (hw : W1 idx)
+    (k q : Key) (hkq : k <+: q) (hq : (denote load idx q).isSome = true) :
+    ∃ d, ((loadAt load (getItem load idx k).1 k).lookup d).isSome = true ∧ k <+: d ∧ d <+: q ∧ (q ≠ k → d ≠ k) := by
+  obtain ⟨_, hden⟩ := lsAt_preserves load hlo idx hw k
+  rw [← hden q] at hq
+  unfold denote at hq
+  cases hl : (loadAt load (getItem load idx k).1 k).lookup q with
+  | some e => exact ⟨q, by simp [hl], hkq, List.prefix_refl q, fun h => h⟩
+  | none =>
+    rw [hl] at hq
+    simp only [Option.isSome_map] at hq
+    cases hb : below load (loadAt load (getItem load idx k).1 k) q with
+    | none => rw [hb] at hq; cases hq
+    | some e' =>
+      obtain ⟨d, hdq, hul⟩ := below_some load _ q e' hb
+      obtain ⟨hul1, hne⟩ := loadAt_UL load _ k d hul
+      have hexp : ((loadAt load (getItem load idx k).1 k).lookup d).isSome = true := by
+        obtain ⟨e, he, _⟩ := hul; simp [he]
+      rcases Nat.le_total k.length d.length with hlen | hlen
+      · exact ⟨d, hexp, List.prefix_of_prefix_length_le hkq hdq hlen, hdq, fun _ => hne⟩
+      · have hdk : d <+: k := List.prefix_of_prefix_length_le hdq hkq hlen
+        exact absurd (getItem_no_UL_above load idx hw k d hul1 hdk) hne
+
+/-- **C17 (listing).** `ls(k)` on a lazy index names exactly the first path components below `k` under which
+    the index means something — whether the entries there are explicit or come from directory objects at,
+    above or below `k` -/
+theorem lsAt_exact (load : Oid → Option Listing) (hlo : ListingsOK load) (idx : LIndex) (hw : W1 idx) (k : Key)
+    (names : List Key) (h : (lsAt load idx k).2 = some names) (x : Key) :
+    x ∈ names ↔ ∃ p rest, x = k ++ [p] ∧ (denote load idx (k ++ p :: rest)).isSome = true := by
+  obtain ⟨_, hden⟩ := lsAt_preserves load hlo idx hw k
+  unfold lsAt at h
+  simp only at h
+  split at h
+  · cases h
+  · simp only [Option.some.injEq] at h
+    subst h
+    rw [mem_foldl_insertSet']
+    simp only [List.not_mem_nil, false_or, List.mem_filterMap]
+    constructor
+    · rintro ⟨e, he, hx⟩
+      cases hs : stripPrefix k e.1 with
+      | none => rw [hs] at hx; cases hx
+      | some r =>
+        rw [hs] at hx
+        cases r with
+        | nil => cases hx
+        | cons p rest =>
+          simp only [Option.some.injEq] at hx
+          refine ⟨p, rest, hx.symm, ?_⟩
+          rw [← stripPrefix_some k e.1 _ hs, ← hden e.1]
+          have := lookup_isSome_of_mem _ e he
+          unfold denote
+          cases hl : (loadAt load (getItem load idx k).1 k).lookup e.1 with
+          | some v => rfl
+          | none => rw [hl] at this; cases this
+    · rintro ⟨p, rest, rfl, hq⟩
+      obtain ⟨d, hexp, hkd, hdq, hne⟩ := lsAt_explicit_between load hlo idx hw k (k ++ p :: rest)
+        (List.prefix_append k _) hq
+      have hdk : d ≠ k := hne (by
+        intro e
+        have := congrArg List.length e
+        simp at this)
+      obtain ⟨r, rfl⟩ := hkd
+      obtain ⟨v, hv⟩ := mem_keys_of_lookup_isSome _ _ hexp
+      refine ⟨(k ++ r, v), hv, ?_⟩
+      rw [stripPrefix_append']
+      have hr : r <+: p :: rest := (List.prefix_append_right_inj k).mp hdq
+      cases r with
+      | nil => exact absurd (by simp) hdk
+      | cons a t =>
+        have : a = p := (List.cons_prefix_cons.mp hr).1
+        simp [this]
+
+/-- `ls(k)` answers "no such directory" only when the index means nothing at or below `k` -/
+theorem lsAt_none (load : Oid → Option Listing) (hlo : ListingsOK load) (idx : LIndex) (hw : W1 idx) (k : Key)
+    (h : (lsAt load idx k).2 = none) (rest : Key) : denote load idx (k ++ rest) = none := by
+  cases hq : denote load idx (k ++ rest) with
+  | none => rfl
+  | some v =>
+    exfalso
+    obtain ⟨d, hexp, hkd, _, _⟩ := lsAt_explicit_between load hlo idx hw k (k ++ rest)
+      (List.prefix_append k _) (by simp [hq])
+    obtain ⟨e, he⟩ := mem_keys_of_lookup_isSome _ _ hexp
+    unfold lsAt at h
+    simp only at h
+    split at h
+    · rename_i hn
+      simp only [Bool.not_eq_true', List.any_eq_false] at hn
+      exact hn (d, e) he (List.isPrefixOf_iff_prefix.mpr hkd)
+    · cases h
+
 /-! non-vacuity: an index with an unloaded directory object `d` listing `a` and `s/b` -/
 def exLoad : Oid → Option Listing := fun o => if o = "t.dir" then some [([['a']], "1"), ([['s'], ['b']], "2")] else none
 def exIdx : LIndex := [([['d']], { isdir := true, hash := some "t.dir", loaded := false }), ([['f']], { isdir := false, hash := some "9", loaded := true })]
@@ -482,6 +646,11 @@ example : (runGets exLoad exIdx [[['d'], ['s'], ['b']], [['d'], ['s']], [['f']],
 /-- iterating under `d/s` (strictly inside the unloaded directory object) yields exactly `d/s` and `d/s/b` -/
 example : (iterItems exLoad exIdx [['d'], ['s']]).2.map (fun p => (p.1, proj p.2)) =
     [([['d'], ['s'], ['b']], (false, some "2")), ([['d'], ['s']], (true, none))] := by decide
+
+/-- listing the unloaded directory names `d/a` and `d/s`; listing strictly inside it names `d/s/b` -/
+example : (lsAt exLoad exIdx [['d']]).2 = some [[['d'], ['a']], [['d'], ['s']]] ∧
+    (lsAt exLoad exIdx [['d'], ['s']]).2 = some [[['d'], ['s'], ['b']]] ∧
+    (lsAt exLoad exIdx [['z']]).2 = none := by decide
 
 example : AList.WF exIdx := by decide
 
